@@ -146,6 +146,8 @@ class C20:
         CTX.views = {p: View(lag=self.lags[p], mempool=not self.nomempool[p]) for p in range(self.k)}
         CTX.fee_base = {p: ch.pick('feebase', [20000, 5000, 150000, 900, 4000000]) for p in range(self.k)}
         CTX.missing = self.missing
+        # some providers do not report whether an output is spent when asked for a single transaction or a block
+        CTX.spent_unknown = {p_ for p_ in range(self.k) if ch.coin('spent_unknown', 0.3)}
         P.write_providers_json(_STATE['datadir'], [{'pid': p, 'priority': self.prios[p]} for p in range(self.k)],
                                self.network)
         self.mode = 'faulty'       # 'calm' (all ok) | 'down' (all raise) | 'faulty'
@@ -592,6 +594,10 @@ class C20:
             if not any(f[0] == u['value'] for f in facts) and not self.poisoned():
                 w.violation('fabricated_utxos', sig, 'cached utxo %s:%d value %r never answered by a provider' %
                             (u['txid'], u['output_n'], u['value']))
+            if False not in self.facts_spent.get((u['txid'], u['output_n']), set()) and not self.poisoned():
+                w.violation('fabricated_utxos', dict(sig, cause='never_reported_unspent'),
+                            'cached utxo %s:%d: no provider ever reported this output as unspent (recorded: %s)' %
+                            (u['txid'][:16], u['output_n'], sorted(map(str, self.facts_spent.get((u['txid'], u['output_n']), [])))))
             if u['address'] != args[0]:
                 w.violation('fabricated_utxos', sig, 'cached utxo for another address')
 
@@ -828,8 +834,14 @@ class C20:
                     if not any(strict_part(f) == strict_part(y) for f in self.facts_tx.get(y['txid'], [])):
                         w.violation('cache_infidelity', dict(sig, cause='content'),
                                     'replayed transaction %s equals no stored provider answer' % y['txid'][:16])
+            first_ids = [x['txid'] for x in a]
+            dup_first = len(set(first_ids)) != len(first_ids)     # the stored answer itself already showed a known defect
+            believed = srv._blockcount if isinstance(srv._blockcount, int) else 0
             for t in first[len(b):]:
-                if t.block_height and t.confirmations and not self.lied:
+                # a transaction in a block beyond the (cached, possibly stale) block count the service works with is
+                # outside what the cache claims to cover
+                if t.block_height and t.confirmations and not self.lied and not dup_first and \
+                        t.block_height <= believed:
                     cause = 'after_txid_not_in_cache' if kwargs.get('after_txid') and not b else 'other'
                     w.violation('cache_infidelity', dict(sig, cause=cause),
                                 'replay from cache lost confirmed transaction %s although the call succeeded' %
@@ -1038,6 +1050,13 @@ class C20:
                 con.close()
 
     # -- bounded liveness ------------------------------------------------------------------------------
+    def no_progress(self, method, message):
+        if self.poisoned():
+            # a malformed answer was accepted earlier (recorded finding): the cache may hold a relabelled transaction
+            self.w.probe('liveness_failure_in_poisoned_run')
+            return
+        self.w.violation('no_progress_after_faults', {'method': method}, message)
+
     def liveness(self):
         """Faults stop: every provider honest and current, TTLs expired, a fresh block.  Every method must answer on
         its first call, with the usual no-fabrication oracles; blockcount must be the tip."""
@@ -1051,20 +1070,17 @@ class C20:
         w.op('liveness_phase', tip=self.chain.tip)
         srv = self.new_service(0)
         if srv is None:
-            w.violation('no_progress_after_faults', {'method': 'constructor'},
-                        'Service construction failed with every provider healthy')
+            self.no_progress('constructor', 'Service construction failed with every provider healthy')
         ok, v = self.run_query(srv, 'blockcount', (), {})
         if not ok or v != self.chain.tip:
-            w.violation('no_progress_after_faults', {'method': 'blockcount'},
-                        'blockcount() = %r with all providers healthy at tip %d' % (v, self.chain.tip))
+            self.no_progress('blockcount', 'blockcount() = %r with all providers healthy at tip %d' % (v, self.chain.tip))
         ok, v = self.run_query(srv, 'estimatefee', (ch.pick('blocks', [5, 1, 25]),), {})
         if not ok:
-            w.violation('no_progress_after_faults', {'method': 'estimatefee'}, 'estimatefee failed')
+            self.no_progress('estimatefee', 'estimatefee failed')
         for a in self.addresses()[:4]:
             ok, v = self.run_query(srv, 'gettransactions', (a,), {'limit': 200})
             if not ok:
-                w.violation('no_progress_after_faults', {'method': 'gettransactions'},
-                            'gettransactions(%s) failed with every provider healthy: %r' % (a, v))
+                self.no_progress('gettransactions', 'gettransactions(%s) failed with every provider healthy: %r' % (a, v))
             elif not self.lied and self.min_providers <= 1:
                 from ref import codec as rcodec
                 hist = self.chain.history_of(rcodec.address_to_script(a, self.network), View())
@@ -1094,15 +1110,15 @@ class C20:
                                 (a, [g[:8] for g in got], [x[:8] for x in want], srv.results_cache_n))
             ok, v = self.run_query(srv, 'getutxos', (a,), {'limit': 200})
             if not ok:
-                w.violation('no_progress_after_faults', {'method': 'getutxos'}, 'getutxos failed: %r' % (v,))
+                self.no_progress('getutxos', 'getutxos failed: %r' % (v,))
         txid = self.some_txid()
         ok, v = self.run_query(srv, 'gettransaction', (txid,), {})
         if not ok:
-            w.violation('no_progress_after_faults', {'method': 'gettransaction'}, 'gettransaction failed: %r' % (v,))
+            self.no_progress('gettransaction', 'gettransaction failed: %r' % (v,))
         b = self.chain.blocks[-1]
         ok, v = self.run_query(srv, 'getblock', (b.height,), {'limit': 50})
         if not ok:
-            w.violation('no_progress_after_faults', {'method': 'getblock'}, 'getblock failed: %r' % (v,))
+            self.no_progress('getblock', 'getblock failed: %r' % (v,))
 
     # -- exhaustively enumerated slice ------------------------------------------------------------------
     def exhaustive_slice(self):
